@@ -7,7 +7,7 @@ from vlib import scenario, bench, lipschitz
 
 LEVEL = "exploration"
 RULE = ("through the real Calculate: (a) Hill 0..999, Shekel 0..999, Rastrigin(1), XSquared(1): Lipschitz-certified branch-and-bound over the whole segment with an analytic "
-        "bound of the Lipschitz constant from the coefficient tables (every point of the box is covered, given that bound); (b) Grishagin 1..100 (49x49 grid in quick, 257x257 in thorough), "
+        "bound of the Lipschitz constant from the coefficient tables (every point of the box is covered, given that bound); (b) Grishagin 1..100 (49x49 grid in quick, 401x401 in thorough), "
         "GKLS 2..5 x 1..100, Shekel4 1..3, Rastrigin / XSquared in dimensions 2..12, StronginC3 over its feasible set: dense grid or low-discrepancy sampling + bounded local "
         "polishing from the best cells, from the declared point and from structure-aware starts (GKLS minimisers and balls, Shekel4 centres). Checked: |f(x_decl)-f_decl| <= 1e-4 (right after construction through the `fv = Calculate(point, fv)` idiom with the holder reused, and again after the instance has been evaluated), "
         "no value below f_decl - 2e-3*max(1,|f_decl|), a point within 0.5% of the side of x_decl whose value is within that tolerance of the best value found. "
@@ -26,15 +26,15 @@ def cases(tier, seed):
     out.append({"kind": "1d", "keys": [["rastrigin", 1], ["xsquared", 1]]})
     gr = list(range(1, 101))
     for a in range(0, len(gr), 2):
-        out.append({"kind": "grid2d", "keys": [["grishagin", k] for k in gr[a:a + 2]], "g": 48 if tier == "quick" else 256})
+        out.append({"kind": "grid2d", "keys": [["grishagin", k] for k in gr[a:a + 2]], "g": 48 if tier == "quick" else 400})
     for n in (2, 3, 4, 5):
         for a in range(1, 101, 10):
-            out.append({"kind": "gkls", "n": n, "ks": list(range(a, a + 10)), "seed": seed, "pts": 1500 if tier == "quick" else 6000})
+            out.append({"kind": "gkls", "n": n, "ks": list(range(a, a + 10)), "seed": seed, "pts": 1500 if tier == "quick" else 20000})
     for k in (1, 2, 3):
-        out.append({"kind": "multi", "key": ["shekel4", k], "seed": seed, "starts": 60 if tier == "quick" else 400})
+        out.append({"kind": "multi", "key": ["shekel4", k], "seed": seed, "starts": 60 if tier == "quick" else 1500})
     for fam in ("rastrigin", "xsquared"):
         for d in range(2, 13):
-            out.append({"kind": "multi", "key": [fam, d], "seed": seed, "starts": 40 if tier == "quick" else 300})
+            out.append({"kind": "multi", "key": [fam, d], "seed": seed, "starts": 40 if tier == "quick" else 1200})
     out.append({"kind": "strongin", "g": 200 if tier == "quick" else 600, "seed": seed})
     return out
 
